@@ -229,3 +229,84 @@ func (b *builder) sumTree(paths *Node) {
 			O("schema", O("type", "object", "properties", O("pet", ref(root, top), "base", ref(root, base))))))))
 	paths.Set(x, O("post", op))
 }
+
+// override: a path-item-level parameter overridden by an operation-level
+// parameter with the same (name, in). Four spellings: $ref/$ref to different
+// components, $ref/inline, inline/$ref, $ref/$ref to the same component. The
+// two parameters differ visibly (schema type, required, description); a second
+// operation of the path item does not override and inherits the item's one.
+func (b *builder) override(paths *Node) {
+	id := b.next()
+	in := b.pickS("override-in", "query", "query", "header", "cookie")
+	name := fmt.Sprintf("ov%d", id)
+	opName := name
+	if in == "header" {
+		name = fmt.Sprintf("X-Ov%d", id)
+		opName = name
+		if b.pct(40, "override-header-case") {
+			// header names are compared case-insensitively
+			opName = fmt.Sprintf("x-ov%d", id)
+			b.tag("override:header-name-differs-in-case")
+		}
+	}
+	itemParam := func() *Node {
+		return O("name", name, "in", in, "description", "item level", "schema", O("type", "string"))
+	}
+	opParam := func() *Node {
+		return O("name", opName, "in", in, "required", true, "description", "operation level", "schema", O("type", "integer"))
+	}
+	type comp struct {
+		file string
+		path []string
+	}
+	mk := func(prefix string, body *Node) comp {
+		f, p := b.home(KParam)
+		if p[0] == "components" {
+			p = []string{p[0], p[1], fmt.Sprintf("%s%d", prefix, id)}
+			if b.docs[f].At(p) != nil {
+				p[2] += "x"
+			}
+		}
+		b.put(f, p, body)
+		return comp{f, p}
+	}
+	// the path item lives in the root or, as a component, in another document
+	itemFile := rootFile
+	if len(b.ext) > 0 && b.pct(35, "override-item-in-file") {
+		itemFile = b.ext[b.n(0, len(b.ext)-1, "override-item-file")]
+		b.tag("override:path-item-in-definition-file")
+	}
+	ref := func(c comp) *Node {
+		style := b.safeStyle([]int{0, 0, 0, 1, 2, 3}[b.n(0, 5, "override-refstyle")], c.file, KParam)
+		return O("$ref", makeRef(itemFile, c.file, c.path, style))
+	}
+	var itemP, opP *Node
+	spelling := b.pickS("override-spelling", "ref-ref-different", "ref-ref-different", "ref-inline", "inline-ref", "ref-ref-same")
+	switch spelling {
+	case "ref-ref-different":
+		a, bb := mk("OvItem", itemParam()), mk("OvOp", opParam())
+		itemP, opP = ref(a), ref(bb)
+	case "ref-inline":
+		itemP, opP = ref(mk("OvItem", itemParam())), opParam()
+	case "inline-ref":
+		itemP, opP = itemParam(), ref(mk("OvOp", opParam()))
+	default:
+		a := mk("OvItem", itemParam())
+		itemP, opP = ref(a), ref(a)
+	}
+	b.tag("override:" + spelling)
+	b.tag("override:in-" + in)
+	ok := func() *Node { return O("200", O("description", "ok")) }
+	other := O("name", fmt.Sprintf("ox%d", id), "in", "query", "schema", O("type", "boolean"))
+	item := O("parameters", A2(itemP, other),
+		"get", O("parameters", A2(opP), "responses", ok()),
+		"put", O("responses", ok()))
+	x := fmt.Sprintf("/o%d", id)
+	if itemFile == rootFile {
+		paths.Set(x, item)
+		return
+	}
+	p := []string{b.pickS("override-bag", "components", "defs"), containerOf[KPathItem], fmt.Sprintf("OvPI%d", id)}
+	b.put(itemFile, p, item)
+	paths.Set(x, O("$ref", makeRef(rootFile, itemFile, p, 0)))
+}
